@@ -678,10 +678,14 @@ pub fn gen_string(rng: &mut Rng) -> String {
     }
     // 1 in 40 strings is long (more than 255 characters per line / in total)
     let n = if rng.chance(1, 40) { rng.usizer(250, 330) } else { rng.usizer(0, 10) };
+    // 1 in 120 strings has more than 255 (mostly very short) lines
+    let many_lines = rng.chance(1, 120);
+    let n = if many_lines { rng.usizer(500, 640) } else { n };
     let mut s = String::new();
     for _ in 0..n {
         let c = match rng.below(12) {
             0 => '\n',
+            5 | 6 | 7 | 8 if many_lines => '\n',
             1 => ' ',
             2 => char::from_u32(rng.u32r(0xA0, 0xFF)).unwrap(),
             3 => *rng.pick(&['\u{0}', '\t', '\u{7f}', '\u{fffd}', '\u{1F600}', 'ｱ', 'Ω', 'Ж']),
@@ -702,8 +706,10 @@ pub fn gen_custom_font(rng: &mut Rng) -> CustomFontD {
     let ch = rng.u32r(1, 9);
     // 1 in 10 fonts has a wide atlas (more than 256 pixels per row) with many glyphs
     let wide = rng.chance(1, 10);
-    let per_row = if wide { rng.u32r(260 / cw + 1, 420 / cw + 1) } else { rng.u32r(1, 7) };
-    let glyphs = if wide { rng.u32r(per_row + 1, per_row * 2 + 3).min(180) } else { rng.u32r(1, 12) };
+    // 1 in 12 of the others has a tall atlas (more than 255 rows): one or two glyphs per row
+    let tall = !wide && rng.chance(1, 12);
+    let per_row = if wide { rng.u32r(260 / cw + 1, 420 / cw + 1) } else if tall { rng.u32r(1, 2) } else { rng.u32r(1, 7) };
+    let glyphs = if wide { rng.u32r(per_row + 1, per_row * 2 + 3).min(180) } else if tall { rng.u32r(256 / ch + 2, 256 / ch + 40).min(180) * per_row.min(1) } else { rng.u32r(1, 12) };
     let rows = (glyphs + per_row - 1) / per_row;
     let image_w = cw * per_row + if rng.chance(1, 3) { rng.u32r(0, cw - 1) } else { 0 };
     let image_h = rows * ch;
